@@ -108,9 +108,19 @@ func HarnessC18() {
 		os.Chdir(dir)
 		defer func() { os.Chdir(old); os.RemoveAll(dir) }()
 	}
+	// a stray side file next to the first factory file (what an interrupted replace-by-rename would leave behind)
+	sideFile := ""
+	for i := 0; i < n; i++ {
+		if !isDir[i] && strings.HasPrefix(paths[i], configDir+"/factory/") && strings.HasSuffix(paths[i], ".toml") && sideFile == "" {
+			sideFile = paths[i] + [3]string{".new", ".tmp", ".bak"}[verifrt.Param("SIDE", 0)%3]
+		}
+	}
 	// make every path known before anything depends on symbolic choices
 	os.Stat(userFile)
 	os.Stat(extraFactory)
+	if sideFile != "" {
+		os.Stat(sideFile)
+	}
 
 	wholeTree := verifrt.Bool("tree.present")
 	if t := verifrt.Param("TREE", -1); t >= 0 {
@@ -163,6 +173,14 @@ func HarnessC18() {
 				f.Close()
 			} else {
 				hasUser = false
+			}
+		}
+		if sideFile != "" && verifrt.Bool("side.file") {
+			f, err := os.OpenFile(sideFile, os.O_CREATE|os.O_WRONLY|os.O_TRUNC, 0o666)
+			if err == nil {
+				f.Write(c18Content("side.data", []byte("side")))
+				f.Close()
+				verifrt.Cover("C18: stray side file present")
 			}
 		}
 		if hasExtra {
